@@ -4,7 +4,7 @@ use crate::engine::core::*;
 use crate::engine::tape::{Tape, fnv};
 use crate::model::data::*;
 use crate::model::value::{V, pair, readback, same, text};
-use garnish_lang_simple_data::{BasicGarnishData, NoOpCompanion, ReallocationStrategy, SimpleNumber, StorageSettings, symbol_value};
+use garnish_lang_simple_data::{BasicGarnishData, DataError, NoOpCompanion, ReallocationStrategy, SimpleNumber, StorageSettings, symbol_value};
 use garnish_lang_traits::Instruction;
 
 pub struct C15Check;
@@ -108,6 +108,139 @@ pub fn configs() -> Vec<(usize, ReallocationStrategy, &'static str)> {
 fn basic_with(initial: usize, strat: ReallocationStrategy) -> BasicGarnishData<(), NoOpCompanion> {
     let s = || StorageSettings::new(initial, usize::MAX, strat.clone());
     BasicGarnishData::new_with_settings(s(), s(), s(), s(), s(), s(), NoOpCompanion::new()).expect("new_with_settings")
+}
+
+/// operations that make a new value out of values the store already holds (phase derived-values)
+#[derive(Clone, Copy, Debug, PartialEq)]
+pub enum DOp {
+    Symbol,
+    Number,
+    Text,
+    /// merge_to_symbol_list(newest symbol or symbol list, newest symbol)
+    MergeNewestNewest,
+    /// merge_to_symbol_list(oldest symbol or symbol list, newest symbol)
+    MergeOldestNewest,
+    /// merge_to_symbol_list(newest symbol or symbol list, oldest symbol)
+    MergeNewestOldest,
+    /// add_concatenation(newest value, oldest value)
+    Concatenation,
+    /// add_pair(oldest value, newest value)
+    Pair,
+    /// add_range over the two newest numbers, then add_slice(newest text, that range)
+    Slice,
+}
+pub const DOPS: [DOp; 9] = [DOp::Symbol, DOp::Number, DOp::Text, DOp::MergeNewestNewest, DOp::MergeOldestNewest, DOp::MergeNewestOldest, DOp::Concatenation, DOp::Pair, DOp::Slice];
+
+fn derived_count(max: usize) -> u64 {
+    (1..=max).map(|l| (DOPS.len() as u64).pow(l as u32)).sum()
+}
+
+fn index_to_derived(mut idx: u64, max: usize) -> Vec<DOp> {
+    for l in 1..=max {
+        let c = (DOPS.len() as u64).pow(l as u32);
+        if idx < c {
+            let mut out = vec![DOp::Symbol; l];
+            for p in (0..l).rev() {
+                out[p] = DOPS[(idx % DOPS.len() as u64) as usize];
+                idx /= DOPS.len() as u64;
+            }
+            return out;
+        }
+        idx -= c;
+    }
+    vec![]
+}
+
+/// run a history of derived-value operations; after each one every address ever returned must read back as the model says
+fn run_derived<D: GD>(d: &mut D, ops: &[DOp], label: &str, ctx: &mut CaseCtx) -> bool {
+    use crate::model::value::SymPart;
+    let mut values: Vec<(usize, V)> = vec![];
+    let mut derived = false;
+    for (k, op) in ops.iter().enumerate() {
+        let symish = |v: &V| matches!(v, V::Sym(_) | V::SymList(_));
+        let parts = |v: &V| -> Vec<SymPart> {
+            match v {
+                V::Sym(s) => vec![SymPart::Sym(*s)],
+                V::SymList(p) => p.clone(),
+                _ => vec![],
+            }
+        };
+        let newest = |values: &[(usize, V)], f: &dyn Fn(&V) -> bool| values.iter().rev().find(|(_, v)| f(v)).cloned();
+        let oldest = |values: &[(usize, V)], f: &dyn Fn(&V) -> bool| values.iter().find(|(_, v)| f(v)).cloned();
+        let is_sym = |v: &V| matches!(v, V::Sym(_));
+        let n = k as i32;
+        let r: Result<Option<(usize, V)>, String> = (|| {
+            let e = |x: DataError| x.to_string();
+            Ok(match op {
+                DOp::Symbol => {
+                    let s = 500_000 + n as u64;
+                    Some((d.add_symbol(s).map_err(e)?, V::Sym(s)))
+                }
+                DOp::Number => Some((d.add_number(SimpleNumber::Integer(n)).map_err(e)?, V::Int(n))),
+                DOp::Text => {
+                    let t = format!("xé{}y", n);
+                    Some((d.parse_add_char_list(&format!("\"{}\"", t)).map_err(e)?, text(&t)))
+                }
+                DOp::MergeNewestNewest | DOp::MergeOldestNewest | DOp::MergeNewestOldest => {
+                    let left = if *op == DOp::MergeOldestNewest { oldest(&values, &symish) } else { newest(&values, &symish) };
+                    let right = if *op == DOp::MergeNewestOldest { oldest(&values, &is_sym) } else { newest(&values, &is_sym) };
+                    match (left, right) {
+                        (Some((la, lv)), Some((ra, rv))) => {
+                            let mut p = parts(&lv);
+                            p.extend(parts(&rv));
+                            Some((d.merge_to_symbol_list(la, ra).map_err(e)?, V::SymList(p)))
+                        }
+                        _ => None,
+                    }
+                }
+                DOp::Concatenation => match (values.last().cloned(), values.first().cloned()) {
+                    (Some((la, lv)), Some((ra, rv))) => Some((d.add_concatenation(la, ra).map_err(e)?, V::Concat(Box::new(lv), Box::new(rv)))),
+                    _ => None,
+                },
+                DOp::Pair => match (values.first().cloned(), values.last().cloned()) {
+                    (Some((la, lv)), Some((ra, rv))) => Some((d.add_pair((la, ra)).map_err(e)?, pair(lv, rv))),
+                    _ => None,
+                },
+                DOp::Slice => {
+                    let is_num = |v: &V| matches!(v, V::Int(_));
+                    let is_text = |v: &V| matches!(v, V::Text(_));
+                    match (newest(&values, &is_num), oldest(&values, &is_num), newest(&values, &is_text)) {
+                        (Some((ea, ev)), Some((sa, sv)), Some((ta, tv))) => {
+                            let ra = d.add_range(sa, ea).map_err(e)?;
+                            let range = V::Range(Box::new(sv), Box::new(ev));
+                            values.push((ra, range.clone()));
+                            Some((d.add_slice(ta, ra).map_err(e)?, V::Slice(Box::new(tv), Box::new(range))))
+                        }
+                        _ => None,
+                    }
+                }
+            })
+        })();
+        match r {
+            Err(e) => {
+                ctx.fail(format!("operation-failed:{:?}", op), format!("{} step {} {:?}: {}", label, k, op, e));
+                return derived;
+            }
+            Ok(None) => {}
+            Ok(Some((a, v))) => {
+                if !matches!(op, DOp::Symbol | DOp::Number | DOp::Text) {
+                    derived = true;
+                }
+                values.push((a, v));
+            }
+        }
+        for (a, v) in &values {
+            let got = readback(d, *a);
+            if !same(&got, v) {
+                ctx.fail(
+                    format!("value-changed:{}:after-{:?}", v.type_name(), op),
+                    format!("{}: after step {} ({:?} of {:?}) address {} held {} and now reads back as {}", label, k, op, ops, a, v, got),
+                );
+                return derived;
+            }
+        }
+    }
+    derived
 }
 
 /// independent growable tables
@@ -414,7 +547,7 @@ impl Check for C15Check {
          phase random: histories of 50..400 operations on SimpleGarnishData and on BasicGarnishData with default and with tape-chosen per-table settings. \
          Oracle: an abstract model of independent growable tables; after EVERY operation every address ever returned reads back (type and content through the getters) as in the model, the instruction and jump tables match index by index, registers match in order (frame markers accounted for), the current value and symbol names match; pops return what the model says. \
          On SimpleGarnishData additionally: adding a bit-identical constant again returns the same address, a different constant a different address. \
-         Phase constant-pairs: every ordered pair (A, B) of a pool of constants of every interned kind (numbers incl. the same value as integer and float, the same small number as number / char / byte / symbol / expression / external, types, texts and byte lists of lengths around 8..256 that differ only in their last, first or middle item) added as A, B, A, B to a fresh object of either implementation: all four read back as added; on SimpleGarnishData equal constants share one address, different ones never do. Phase large-stores: 100 .. 5000 (thorough 70000) distinct constants of one kind (integers, floats, texts, byte lists, symbols) or a mix in one object, then every one of them added again forwards and backwards: on SimpleGarnishData each comes back at its first address and no two share one, on both implementations they read back as added. Non-trivial = a history in which at least two different tables grew while others held data; distinct = distinct (history, configuration)."
+         Phase constant-pairs: every ordered pair (A, B) of a pool of constants of every interned kind (numbers incl. the same value as integer and float, the same small number as number / char / byte / symbol / expression / external, types, texts and byte lists of lengths around 8..256 that differ only in their last, first or middle item) added as A, B, A, B to a fresh object of either implementation: all four read back as added; on SimpleGarnishData equal constants share one address, different ones never do. Phase derived-values: every history of up to 5 (thorough 6) operations out of 9 that store a symbol, a number or a text or make a new value from stored ones (merge_to_symbol_list with the newest / oldest symbol list and symbol, add_concatenation, add_pair, add_range + add_slice): after every operation every address handed out earlier reads back unchanged, on both implementations. Phase large-stores: 100 .. 5000 (thorough 70000) distinct constants of one kind (integers, floats, texts, byte lists, symbols) or a mix in one object, then every one of them added again forwards and backwards: on SimpleGarnishData each comes back at its first address and no two share one, on both implementations they read back as added. Non-trivial = a history in which at least two different tables grew while others held data; distinct = distinct (history, configuration)."
             .to_string()
     }
     fn assumptions(&self) -> Vec<String> {
@@ -431,6 +564,7 @@ impl Check for C15Check {
             Phase::exhaustive("longer-histories-tight-configs", 14u64.pow(h as u32 + 1) * 2).with_chunk(4096),
             Phase::random("random-long-histories", tier.pick(6_000, 150_000), 900).with_min_tape(120).with_chunk(64),
             Phase::exhaustive("constant-pairs", { let n = constant_pool().len() as u64; n * n }).with_chunk(128),
+            Phase::exhaustive("derived-values", derived_count(tier.pick(5, 6))).with_chunk(1024),
             Phase::exhaustive("large-stores", (LARGE_KINDS.len() * tier.pick(LARGE_SIZES_QUICK.len(), LARGE_SIZES.len())) as u64).with_chunk(1).with_deadline_ms(60_000),
         ]
     }
@@ -522,6 +656,28 @@ impl Check for C15Check {
                 }
             }
             (4, Input::Index(i)) => {
+                // values made out of stored values (symbol lists by merging, concatenations, pairs, ranges, slices): an
+                // operation that makes a new value must not change what an address handed out earlier reads back as
+                let ops = index_to_derived(*i, tier.pick(5, 6));
+                ctx.render(|| format!("{:?}", ops));
+                ctx.class("derived-values");
+                ctx.sub_evals += 2;
+                let a = guard("store", || run_derived(&mut new_simple(), &ops, "Simple", ctx));
+                let derived = match a {
+                    Ok(x) => x,
+                    Err(p) => {
+                        ctx.fail(format!("store-panic@{}", p.loc), format!("Simple {:?}: {}", ops, p.msg));
+                        false
+                    }
+                };
+                if let Err(p) = guard("store", || run_derived(&mut new_basic(), &ops, "Basic", ctx)) {
+                    ctx.fail(format!("store-panic@{}", p.loc), format!("Basic {:?}: {}", ops, p.msg));
+                }
+                if derived {
+                    ctx.nontrivial(fnv(format!("derived{}", i).as_bytes()));
+                }
+            }
+            (5, Input::Index(i)) => {
                 // many distinct constants of one kind (or a mix) in one object, then every one of them again
                 let kind = LARGE_KINDS[(*i as usize) % LARGE_KINDS.len()];
                 let n = LARGE_SIZES[(*i as usize) / LARGE_KINDS.len()];
